@@ -175,6 +175,9 @@ def main(argv=None):
         print(f"CHECKER-ERROR property={prop} loading: {type(e).__name__}: {e}")
         traceback.print_exc()
         return 3
+    if a.tier == "thorough":
+        from pyvc import interp as _interp
+        _interp.Path.XCHECK_MAX = 6   # per path; at most 60 per obligation set: sample for the second solver
     _OSETS = [o for o in vc.REGISTRY if prop in o.props and (o.tier == "quick" or a.tier == "thorough")
               and (not a.only or a.only in o.name)]
     if not _OSETS:
@@ -351,6 +354,30 @@ def main(argv=None):
                     errors.append(("baseline", f"{len(missing)} obligations of the committed baseline were not generated, e.g. {missing[:3]}"))
                     exit_code = 3
 
+    # thorough tier: a sample of the queries the primary solver answered `unsat` is put to a second, independent solver
+    xres = {"queries": 0, "agree": 0, "second_solver_unknown": 0, "disagree": []}
+    if a.tier == "thorough":
+        import concurrent.futures as _cf2
+        qs = [(rj["name"], q) for rj in results for q in rj.get("xcheck", [])]
+
+        def second_opinion(item):
+            name, smt2 = item
+            r, backend = fallback_solve(smt2, timeout_s=20)
+            return name, r
+        with _cf2.ThreadPoolExecutor(max_workers=12) as ex:
+            for name, r in ex.map(second_opinion, qs):
+                xres["queries"] += 1
+                if r == "unsat":
+                    xres["agree"] += 1
+                elif r == "sat":
+                    xres["disagree"].append(name)
+                else:
+                    xres["second_solver_unknown"] += 1
+        if xres["disagree"]:
+            errors.append(("cross-solver", f"cvc5 / z3 4.8 found a model for {len(xres['disagree'])} queries z3 5.1 answered unsat, e.g. in {xres['disagree'][:3]}"))
+            if exit_code == 0:
+                exit_code = 3
+
     # history lemmas (DESIGN.md 3.4): machine-checked induction from the step contracts discharged above to the
     # history statement; only reported when every step contract it rests on was discharged in this very run
     history, h_errs, h_und = run_history_lemmas(prop, results, a.only)
@@ -389,6 +416,8 @@ def main(argv=None):
                                         "obligation_values_compared_cpython_vs_pyvc": conf["compared"],
                                         "disagreements": len(conf["disagreements"])},
             "history_lemmas": history,
+            "cross_solver_recheck": {"sampled_unsat_queries": xres["queries"], "second_solver_agrees": xres["agree"],
+                                     "second_solver_undecided": xres["second_solver_unknown"], "disagreements": len(xres["disagree"])},
             "phase_seconds": dict(phases, total=round(wall, 2)),
             "paths_explored": sum(rj["paths"] for rj in results),
             "source_sha256": dict(sorted(_LOADER.source_sha.items())),
